@@ -271,3 +271,24 @@ def run(F, R, tier):
                 "acl_directory reaches set_permissions(0o700) on every path to its return (a refused chown does not skip it)",
                 "acl_directory can return without attempting set_permissions(0o700) (e.g. after a failed chown): the key directory keeps its "
                 "creation mode and the key file is written into it", witness={"path_lines": B.path_lines(pth)} if pth else None)
+
+    # The recorded findings (known_findings.jsonl) all stem from one construct: compute_signature echoes the key text in Error::Hex when
+    # the key is not valid hex. That input class is pinned here, so that the same sink reached for *more* keys (another decoder, a length
+    # check, ...) is a new violation and not covered by the recorded finding.
+    cs_ = F.fns.get(AP + "common::helpers::compute_signature")
+    if cs_:
+        Bc = mir.Body(cs_, F)
+        echo = [bi for bi, blk in enumerate(Bc.blocks) if not blk["cleanup"] for s in blk["stmts"]
+                if s["k"] == "assign" and s["rv"]["k"] == "agg" and str(s["rv"].get("variant") or "") == "Hex"]
+        triggers = set()
+        for bi, w, r, t in Bc.calls:
+            if w == mir.POLL:
+                continue
+            nm = q.base_name(r or w or "")
+            imp, _, ts = q.outcome_edges(Bc, lambda org, _x=None, b_=bi: bool(org) and all(o[0] == "call" and o[2] == b_ for o in org), "Err")
+            if ts and echo and Bc.path([0], echo, cut_edges=imp) is None:
+                triggers.add(nm)
+        R.check(bool(echo) and triggers == {"hex::decode"}, "C12.R2", "C12.R2:%s:echo-only-for-non-hex-key" % cs_["id"], "%s:%s" % (cs_["file"], cs_["line"]),
+                "compute_signature puts the key text into an error only on the Err outcome of hex::decode(key) (the recorded finding's input class: a key that is not hex)",
+                "compute_signature now echoes the key text under %s (expected: only the Err outcome of hex::decode): more key values than the "
+                "recorded finding covers end up in logs" % (sorted(triggers) or "an unrecognised condition"))
